@@ -4,9 +4,31 @@ func init() {
 	register(&PropertySpec{
 		ID: "C06",
 		Rules: []RuleSpec{
+			{"commit-point", "no error exit of storeBlock is reachable after the PersistPrivate publish (one tabled exception), and the publish is gated by the MPT update and the storing goroutine's outcome", ruleCommitPoint},
 			{"accept-dominators", "every acceptance check (index, state-root setting, header link/verification, Merkle root, per-transaction verification; header chain checks and witness against the previous NextConsensus) gates storeBlock / HeaderHashes.addHeaders on every CFG path", ruleAcceptDominators},
 		},
 		NotCovered: "that each check computes the right thing; witness VM semantics; that the correct block is still accepted afterwards",
+	})
+	register(&PropertySpec{
+		ID: "C04",
+		Rules: []RuleSpec{
+			{"tx-commit-guard", "the per-transaction DAO layer is persisted only on the non-fault branch, it is the private layer of a context created for that transaction, and OnPersist/PostPersist persist only after a successful Exec", ruleTxCommitGuard},
+		},
+		NotCovered: "ContractHasTryBlock optimisation soundness, fee deduction, token arithmetic, nested try/finally state machine",
+	})
+	register(&PropertySpec{
+		ID: "C03",
+		Rules: []RuleSpec{
+			{"mpt-batch-source", "the MPT batch of a block is GetStorageChanges() of the very layer every execution of the block wrote to, taken after the last execution, and that layer is what is published", ruleMPTBatchSource},
+		},
+		NotCovered: "trie correctness itself (C10), Find/Seek ordering, proofs per key, equality of historic and live results",
+	})
+	register(&PropertySpec{
+		ID: "C02",
+		Rules: []RuleSpec{
+			{"block-single-publish", "a block reaches the shared DAO through exactly one PersistPrivate of layers created in storeBlock, the tip pointer is written to one of them, and nothing else in the closure of storeBlock mutates bc.dao", ruleSinglePublish},
+		},
+		NotCovered: "idempotence of re-executing a partially persisted stage, content equality after recovery, GC passes, header-hash page arithmetic",
 	})
 	register(&PropertySpec{
 		ID: "C07",
